@@ -68,6 +68,51 @@ Theorem c04_body_passes_are_the_modelled_ones :
 Proof. reflexivity. Qed.
 Print Assumptions c04_body_passes_are_the_modelled_ones.
 
+
+(** The transclusion rule itself, on the flat fragment (Model/FlatCall.v): a call {{name|args}} on a page, name and
+    arguments plain text, to a template whose body is plain text and parameter references {{{k}}} / {{{k|default}}}
+    with plain names and defaults (or to no template at all).  For every library, every such call and all
+    sufficiently large fuel the expander model - name expansion, parser-function detection, loop detection, the
+    argument dictionary with its expansion-path frames, the two passes over the body, the newline rules and
+    finalisation - returns exactly: the body with every parameter replaced by the value bound to its key (unnamed
+    arguments numbered from 1 and verbatim, named ones trimmed, numeric names are numbers, the last binding of a key
+    wins), else by its default, else left literal; a link to the template page when the template is missing; one
+    newline prepended when the result starts with a list or table marker.  One trailing line break of a bound
+    value is dropped (the known finding c04:trailing-newline-dropped): without such values the result is
+    MediaWiki's (second theorem), with them it is not (third). *)
+From WTP Require Import Model.FlatCall Proofs.FlatCallProofs Gen.GenData.
+
+Theorem c04_flat_calls_follow_the_transclusion_rule :
+  forall pfnames lib opts nwmap name args,
+    flat_ok pfnames lib name args = true -> o_tfn opts = [] -> o_pfn opts = [] ->
+    exists F, forall fuel, (F <= fuel)%nat ->
+      expand_page pfnames nwmap lib opts false fuel [T (chars name :: args)] = Some (codes (result_of lib name args)).
+Proof. exact flat_page. Qed.
+Print Assumptions c04_flat_calls_follow_the_transclusion_rule.
+
+Theorem c04_flat_rule_is_mediawikis_without_trailing_line_breaks :
+  forall lib name args t, find_tpl lib name = Some t -> no_trailing_nl (bind_args args 1 []) = true ->
+    result_of lib name args = mw_result_of lib name args.
+Proof. exact flat_call_mediawiki. Qed.
+Print Assumptions c04_flat_rule_is_mediawikis_without_trailing_line_breaks.
+
+Theorem c04_flat_rule_with_trailing_line_break_refuted :
+  exists pfnames lib name args, flat_ok pfnames lib name args = true /\
+    codes (result_of lib name args) <> codes (mw_result_of lib name args).
+Proof.
+  exists [], [mktpl [115] [Ch 91; A [chars [49]]; Ch 93] false], [115], [chars [120; 10]].
+  destruct trailing_newline_witness as (H1 & H2 & H3). split; [exact H1|]. rewrite H2, H3. discriminate.
+Qed.
+Print Assumptions c04_flat_rule_with_trailing_line_break_refuted.
+
+(* the premises are met with the real parser-function table: {{b|x| k = v |2=w|k=z}} with Template:b = "*{{{2}}}-{{{k|d}}}-{{{q}}}" *)
+Example c04_a_flat_call :
+  let lib := [mktpl [98] (Ch 42 :: A [chars [50]] :: Ch 45 :: A [chars [107]; chars [100]] :: Ch 45 :: [A [chars [113]]]) false] in
+  let args := [chars [120]; chars [32; 107; 32; 61; 32; 118; 32]; chars [50; 61; 119]; chars [107; 61; 122]] in
+  flat_ok parser_functions lib [98] args = true /\
+  codes (result_of lib [98] args) = [10; 42; 119; 45; 122; 45; 123; 123; 123; 113; 125; 125; 125].    (* "\n*w-z-{{{q}}}" *)
+Proof. split; vm_compute; reflexivity. Qed.
+
 (* BEGIN PINS (tools/repin.py) *)
 From WTP Require Import Gen.GenPins.
 Module Pins.
